@@ -10,9 +10,13 @@ OUTSIDE = ["types outside the 24-entry catalogue (depth > 2, other constructors)
 
 def obligations(tier):
     t = 400 if tier == "quick" else 1200
-    obs = [Ob(f"C09.type/pos={p}", "pipe", "c_type", {"VF_POS": p}, t, FN_PIPE,
-              "24 catalogued types (sizes (n) (p,s) (max) (n CHAR) (*,s), [] suffixes, two-word types, <...> types nested to depth 2, with/without blank after inner commas) x "
-              "5 following option sets x column position " + str(p) + " of 3 (type and options symbolic)", known="angle-brackets-in-one-token")
-           for p in range(3)]
+    obs = []
+    for p in range(3):
+        for pv, pvn in enumerate(["plain", "DEFAULT", "NOT NULL", "CHECK"]):
+            if tier == "quick" and pv == 2:
+                continue
+            obs.append(Ob(f"C09.type/pos={p}/neighbour={pvn}", "pipe", "c_type", {"VF_POS": p, "VF_PV": pv}, t, FN_PIPE,
+                          "24 catalogued types (sizes (n) (p,s) (max) (n CHAR) (*,s), [] suffixes, two-word types, <...> types nested to depth 2, with/without blank after inner commas) x "
+                          f"5 following option sets (both symbolic); column position {p} of 3; preceding neighbour p int {pvn if pv else ''}", known="angle-brackets-in-one-token"))
     obs += lex_obs("C09", "c_case", ["type_pos"], tier, "lexcase")
     return obs
